@@ -279,6 +279,8 @@ pub enum Stmt {
     Let(Pat, Option<Ty>, Expr),
     /// `let _ = e;` (false) or `e;` (true)
     Expr(Expr, bool),
+    /// verbatim statement text (used to inject ill-typed code; never interpreted)
+    Raw(String),
 }
 
 #[derive(Clone, Debug)]
